@@ -326,3 +326,147 @@ def many_fields(case, ctx):
             "weight:" + str(case["weight"]), "target:" + case["target"])
     ctx.nontrivial_if(len(out.data) >= 2)
     check_views("C07.many", out, case, expected_field=expected, tol_rel=1e-12)
+
+
+# --- histories: one plane object used, edited and derived between multiplications ---------------------------
+
+PLANE_EDITS = ["set_opd", "set_opd_scalar", "set_amp", "inplace_opd", "inplace_amp", "aug_opd", "copy", "deepcopy",
+               "rescale", "resample", "fit_tilt"]
+
+
+@st.composite
+def plane_history_case(draw, tier="quick"):
+    shape = draw(gen.shape2(10, 16))
+    m, n = shape
+    wl = draw(st.sampled_from([0.5e-6, 1e-6]))
+    # solid apertures by construction (a thick rectangle or disc, >= 6 samples across), so that resampling by
+    # 0.5 .. 3 keeps every segment populated: this check is about staleness, not about degenerate masks
+    rr, cc = np.mgrid[0:m, 0:n]
+    if draw(st.booleans()):
+        r0, c0 = draw(st.integers(0, m - 8)), draw(st.integers(0, n - 8))
+        h, w_ = draw(st.integers(8, m - r0)), draw(st.integers(8, n - c0))
+        mask = ((rr >= r0) & (rr < r0 + h) & (cc >= c0) & (cc < c0 + w_)).astype(int)
+    else:
+        rad = draw(gen.finite(4.0, min(m, n) / 2 - 0.5))
+        mask = ((rr - m // 2) ** 2 + (cc - n // 2) ** 2 <= rad ** 2).astype(int)
+    k = draw(st.integers(0, 2**31 - 1))
+    rng = np.random.default_rng(k)
+    amp = mask * (0.5 + 0.5 * rng.uniform(size=shape))
+    u, v = (rr - m / 2) / m, (cc - n / 2) / n
+    cf = rng.normal(size=4)
+    opd = mask * 0.3 * wl * (cf[0] * u + cf[1] * v + cf[2] * u * v + cf[3] * (u * u - v * v))
+    forms = draw(st.sampled_from(["array/array/none", "array/array/2d", "scalar/scalar/2d", "scalar/array/2d",
+                                  "array/scalar/2d", "scalar/scalar/3d", "array/array/3d"]))
+    labels = None
+    if forms.endswith("3d"):
+        # two or three stripes, each at least 4 samples wide
+        b = gen.bbox(mask != 0)
+        labels = np.zeros(shape, dtype=int)
+        if draw(st.booleans()):
+            cut = (b[0] + b[1] + 1) // 2
+            labels[:cut] = 1
+            labels[cut:] = 2
+        else:
+            cut = (b[2] + b[3] + 1) // 2
+            labels[:, :cut] = 1
+            labels[:, cut:] = 2
+        labels = labels * mask
+    steps = []
+    for _ in range(draw(st.integers(3, 9 if tier == "quick" else 14))):
+        if draw(st.floats(0, 1)) < 0.5:
+            steps.append({"kind": "multiply", "wl": draw(st.sampled_from([wl, wl, 1.3 * wl]))})
+        else:
+            steps.append({"kind": "edit", "edit": draw(st.sampled_from(PLANE_EDITS)), "x": draw(gen.finite(0.0, 1.0)),
+                          "y": draw(gen.finite(0.0, 1.0)), "seed": draw(st.integers(0, 2**31 - 1)),
+                          "s": draw(st.sampled_from([2.0, 0.5, 1.5, 3.0]))})
+    steps.append({"kind": "multiply", "wl": wl})
+    return {"shape": list(shape), "wavelength": wl, "amp": amp, "opd": opd, "mask": mask, "labels": labels,
+            "forms": forms, "cls": draw(st.sampled_from(["Plane", "Pupil"])), "ps": draw(gen.pos_log(1e-4, 1e-1)),
+            "steps": steps}
+
+
+def _expected_field(p, wl):
+    """amplitude * exp(2 pi i opd / lambda) inside the plane's current mask, from its reported attributes"""
+    m = np.asarray(p.mask)
+    m2 = (m != 0) if m.ndim == 2 else (m != 0).any(axis=0)
+    a = np.broadcast_to(np.asarray(p.amplitude, dtype=float), m2.shape)
+    o = np.broadcast_to(np.asarray(p.opd, dtype=float), m2.shape)
+    return np.where(m2, a * np.exp(2j * np.pi * o / wl), 0)
+
+
+@hyp("C07", "plane_history", lambda tier: plane_history_case(tier),
+     "one plane object multiplied into fresh wavefronts (repeated wavelengths) between edits of its attributes "
+     "(assignment, in-place writes, augmented assignment), copies and rescale/resample/fit_tilt: every product "
+     "must be amplitude*exp(2 pi i opd/lambda) inside the mask as the plane reports them at that moment",
+     examples=(300, 1200), budget_s=(150, 700))
+def plane_history(case, ctx):
+    import copy as _copy
+    wl0 = case["wavelength"]
+    af, of, mf = case["forms"].split("/")
+    mask = None
+    if mf == "2d":
+        mask = case["mask"].copy()
+    elif mf == "3d":
+        lab = case["labels"]
+        mask = np.stack([(lab == v).astype(int) for v in range(1, int(lab.max()) + 1)])
+    kw = dict(amplitude=case["amp"].copy() if af == "array" else 0.75,
+              opd=case["opd"].copy() if of == "array" else 0.1 * wl0, mask=mask, pixelscale=case["ps"])
+    with lentil_call("C07.history.build", f"{case['cls']}({case['forms']})"):
+        p = lentil.Pupil(focal_length=2.0, **kw) if case["cls"] == "Pupil" else lentil.Plane(**kw)
+    done, n_mul, edited_between = [], 0, False
+    for i, st_ in enumerate(case["steps"]):
+        if st_["kind"] == "edit":
+            e = st_["edit"]
+            rng = np.random.default_rng(st_["seed"])
+            arr_opd, arr_amp = np.ndim(p.opd) == 2, np.ndim(p.amplitude) == 2
+            shp = np.asarray(p.mask).shape[-2:]
+            applied = True
+            with lentil_call("C07.history.edit", f"{e} after [{' '.join(done)}]"):
+                if e == "set_opd":
+                    p.opd = rng.uniform(-0.3, 0.3, size=shp) * wl0
+                elif e == "set_opd_scalar":
+                    p.opd = (0.05 + st_["x"]) * wl0
+                elif e == "set_amp":
+                    p.amplitude = rng.uniform(0.2, 1.0, size=shp)
+                elif e == "inplace_opd" and arr_opd and p.opd.flags.writeable:
+                    r0, c0 = int(st_["x"] * (shp[0] - 1)), int(st_["y"] * (shp[1] - 1))
+                    p.opd[r0:r0 + 3, c0:c0 + 3] += 0.2 * wl0
+                elif e == "inplace_amp" and arr_amp and p.amplitude.flags.writeable:
+                    r0, c0 = int(st_["x"] * (shp[0] - 1)), int(st_["y"] * (shp[1] - 1))
+                    p.amplitude[r0:r0 + 2, c0:c0 + 4] *= 0.5
+                elif e == "aug_opd":
+                    p.opd -= 0.07 * wl0
+                elif e == "copy":
+                    p = p.copy()
+                elif e == "deepcopy":
+                    p = _copy.deepcopy(p)
+                elif e == "rescale" and max(shp) * st_["s"] <= 60 and min(shp) * st_["s"] >= 4:
+                    p = p.rescale(st_["s"])
+                elif e == "resample" and max(shp) * st_["s"] <= 60 and min(shp) * st_["s"] >= 4:
+                    p = p.resample(p.pixelscale[0] / st_["s"])
+                elif e == "fit_tilt" and arr_opd:
+                    p.fit_tilt(inplace=True)
+                else:
+                    applied = False
+            if applied:
+                done.append(e)
+                edited_between = edited_between or n_mul > 0
+            continue
+        wl = st_["wl"]
+        with lentil_call("C07.history.multiply", f"multiply at {wl} after [{' '.join(done)}]"):
+            w = lentil.Wavefront(wl) * p
+        if any(np.ndim(f.data) == 2 and f.data.size == 1 for f in w.data):
+            raise Skip("single_sample_intermediate_field(known)")
+        with lentil_call("C07.history.field", "Wavefront.field"):
+            got = w.field
+        exp = _expected_field(p, wl)
+        done.append(f"x@{wl / wl0:.1f}")
+        n_mul += 1
+        peak = max(cm.max_abs(exp), 1e-300)
+        if got.shape != exp.shape or cm.max_abs(got - exp) > 1e-13 * peak:
+            raise Violation("C07.history.stale", f"step {i}: the product at wavelength {wl} is not amplitude*exp(2 pi i "
+                                                 f"opd/lambda) inside the mask as the plane reports them now "
+                                                 f"({case['cls']} {case['forms']}; history: {' '.join(done)})")
+    ctx.tag(case["cls"], "forms:" + case["forms"], f"multiplies:{min(n_mul, 5)}",
+            *sorted({"edit:" + d for d in done if not d.startswith("x@")}))
+    ctx.nontrivial_if(edited_between and n_mul >= 2)
